@@ -146,4 +146,289 @@ theorem limits_stacked (hs : List ImageHeaderFields) (hst : Stacked hs) : limits
     | cons h rest ih => intro R; simp [rowStarts, stackBoxes, ih]
   exact key hs 0
 
+theorem boxLo_last (r0 re c0 ce nb : Nat) (pt : Idx) :
+    boxLo (boxDef r0 re c0 ce nb 2) pt 0 = pt 0 - (r0 : Int) ∧ boxLo (boxDef r0 re c0 ce nb 2) pt 1 = pt 1 - (c0 : Int) ∧
+    boxLo (boxDef r0 re c0 ce nb 2) pt 2 = pt 2 := by
+  unfold boxDef boxLo
+  by_cases h : nb = 1 <;> simp [h]
+
+/-- the mosaic of row-stacked members, pointwise: the member that holds the row shows, where it is wide enough -/
+theorem stacked_get (nb : Nat) : ∀ (hs : List ImageHeaderFields) (cs : List Seg), List.Forall₂ Member hs cs →
+    (∀ h ∈ hs, h.nbands = nb ∧ Valid h) →
+    ∀ (R : Nat) (acc : Arr Src) (pt : Idx), 0 ≤ pt 0 → 0 ≤ pt 1 → ∀ b : Nat, (nb ≠ 1 → pt 2 = (b : Int) ∧ b < nb) →
+    ((mkBlks (((stackBoxes R hs).map (fun bx => boxDef bx.1 bx.2.1 bx.2.2.1 bx.2.2.2 nb 2)).zip cs)).fullOnto
+        Src.leaf Src.fill acc).get pt =
+      if R ≤ (pt 0).toNat then
+        match locate hs ((pt 0).toNat - R) with
+        | none => acc.get pt
+        | some (h, yy) => if (pt 1).toNat < h.ncols then pixelSrc h yy (pt 1).toNat b else acc.get pt
+      else acc.get pt
+  | [], [], _, _, R, acc, pt, _, _, b, _ => by
+    simp only [stackBoxes, List.map_nil, List.zip_nil_left, mkBlks, Blks.fullOnto, locate]
+    split <;> rfl
+  | h :: rest, t :: ts, .cons hm hrest, hall, R, acc, pt, hy0, hx0, b, hb => by
+    obtain ⟨hnb, hv⟩ := hall h (by simp)
+    have ih := stacked_get nb rest ts hrest (fun h' hh' => hall h' (by simp [hh'])) (R + h.nrows)
+      (acc.paste (boxDef R (R + h.nrows) 0 h.ncols nb 2) (t.full Src.leaf Src.fill)) pt hy0 hx0 b hb
+    simp only [stackBoxes, List.map_cons, List.zip_cons_cons, mkBlks, Blks.fullOnto]
+    rw [ih]
+    have hpaste : (acc.paste (boxDef R (R + h.nrows) 0 h.ncols nb 2) (t.full Src.leaf Src.fill)).get pt =
+        if inBox (boxDef R (R + h.nrows) 0 h.ncols nb 2) pt then
+          t.fullSrc.get (boxLo (boxDef R (R + h.nrows) 0 h.ncols nb 2) pt) else acc.get pt := rfl
+    obtain ⟨a0, a1, a2⟩ := ax_last nb
+    have hbox : inBox (boxDef R (R + h.nrows) 0 h.ncols nb 2) pt = true ↔
+        (R ≤ (pt 0).toNat ∧ (pt 0).toNat < R + h.nrows) ∧ (pt 1).toNat < h.ncols := by
+      rw [inBox_boxDef, a0, a1, a2]
+      constructor
+      · rintro ⟨⟨h1, h2⟩, ⟨_, h4⟩, _⟩
+        refine ⟨⟨?_, ?_⟩, ?_⟩ <;> push_cast at * <;> omega
+      · rintro ⟨⟨h1, h2⟩, h3⟩
+        refine ⟨⟨?_, ?_⟩, ⟨?_, ?_⟩, ?_⟩
+        · push_cast; omega
+        · push_cast; omega
+        · push_cast; omega
+        · omega
+        · by_cases h1' : nb = 1
+          · exact Or.inl h1'
+          · obtain ⟨e, hlt⟩ := hb h1'
+            exact Or.inr ⟨by rw [e]; omega, by rw [e]; omega⟩
+    obtain ⟨l0, l1, l2⟩ := boxLo_last R (R + h.nrows) 0 h.ncols nb pt
+    by_cases hlo : R ≤ (pt 0).toNat
+    · by_cases hhi : (pt 0).toNat < R + h.nrows
+      · -- the row lies in this member
+        have hloc : locate (h :: rest) ((pt 0).toNat - R) = some (h, (pt 0).toNat - R) := by
+          simp only [locate]; rw [if_pos (by omega)]
+        rw [if_neg (by omega), if_pos hlo, hloc, hpaste]
+        simp only []
+        by_cases hx : (pt 1).toNat < h.ncols
+        · rw [if_pos hx, if_pos (hbox.2 ⟨⟨hlo, hhi⟩, hx⟩)]
+          have := hm.spec hv (boxLo (boxDef R (R + h.nrows) 0 h.ncols nb 2) pt)
+            (by rw [l0]; omega) (by rw [l0]; omega) (by rw [l1]; push_cast; omega) (by rw [l1]; push_cast; omega) b
+            (fun hne => by rw [l2]; exact hnb ▸ hb (hnb ▸ hne))
+          rw [this, l0, l1]
+          congr 1 <;> omega
+        · rw [if_neg hx]
+          have : ¬ inBox (boxDef R (R + h.nrows) 0 h.ncols nb 2) pt = true := fun hh => hx (hbox.1 hh).2
+          rw [if_neg this]
+      · -- the row lies in a later member (or below all)
+        have hloc : locate (h :: rest) ((pt 0).toNat - R) = locate rest ((pt 0).toNat - (R + h.nrows)) := by
+          simp only [locate]; rw [if_neg (by omega)]; congr 1; omega
+        have hnot : ¬ inBox (boxDef R (R + h.nrows) 0 h.ncols nb 2) pt = true := fun hh => hhi (hbox.1 hh).1.2
+        rw [if_pos (by omega), if_pos hlo, hloc, hpaste, if_neg hnot]
+    · have hnot : ¬ inBox (boxDef R (R + h.nrows) 0 h.ncols nb 2) pt = true := fun hh => hlo (hbox.1 hh).1.1
+      rw [if_neg (by omega), if_neg hlo, hpaste, if_neg hnot]
+
+/-! ### the collection -/
+
+theorem mapM'_forall₂ {β γ : Type} (f : β → Except Err γ) : ∀ (l : List β) (r : List γ), mapM' f l = .ok r →
+    List.Forall₂ (fun x y => f x = .ok y) l r
+  | [], r, h => by simp only [mapM', Except.ok.injEq] at h; subst h; exact .nil
+  | x :: xs, r, h => by
+    simp only [mapM'] at h
+    split at h
+    · cases h
+    · rename_i y hy
+      split at h
+      · cases h
+      · rename_i ys hys
+        simp only [Except.ok.injEq] at h; subst h
+        exact .cons hy (mapM'_forall₂ f xs ys hys)
+
+theorem foldl_max_le : ∀ (l : List Nat) (a : Nat), a ≤ l.foldl max a ∧ ∀ x ∈ l, x ≤ l.foldl max a
+  | [], a => ⟨Nat.le_refl _, fun _ h => by simp at h⟩
+  | y :: ys, a => by
+    obtain ⟨h1, h2⟩ := foldl_max_le ys (max a y)
+    refine ⟨by simp only [List.foldl]; omega, ?_⟩
+    intro x hx
+    simp only [List.foldl]
+    rcases List.mem_cons.1 hx with rfl | hx
+    · omega
+    · exact h2 x hx
+
+theorem le_listMax {l : List Nat} {x : Nat} (hx : x ∈ l) : x ≤ listMax l := by
+  cases l with
+  | nil => simp at hx
+  | cons a as =>
+    obtain ⟨h1, h2⟩ := foldl_max_le as a
+    rcases List.mem_cons.1 hx with rfl | hx
+    · exact h1
+    · exact h2 x hx
+
+theorem stack_rows : ∀ (hs : List ImageHeaderFields) (R : Nat),
+    ((stackBoxes R hs).map (·.2.1)).foldl max R = R + (hs.map (·.nrows)).sum
+  | [], R => by simp [stackBoxes]
+  | h :: rest, R => by
+    simp only [stackBoxes, List.map_cons, List.foldl, List.sum_cons]
+    rw [Nat.max_eq_right (by omega), stack_rows rest (R + h.nrows)]
+    omega
+
+theorem stack_cols : ∀ (hs : List ImageHeaderFields) (R : Nat), (stackBoxes R hs).map (·.2.2.2) = hs.map (·.ncols)
+  | [], _ => rfl
+  | h :: rest, R => by simp [stackBoxes, stack_cols rest]
+
+/-- total rows of the product image: the members' rows added up -/
+def totalRows (hs : List ImageHeaderFields) : Nat := (hs.map (·.nrows)).sum
+/-- columns of the product image: the widest member -/
+def totalCols (hs : List ImageHeaderFields) : Nat := listMax (hs.map (·.ncols))
+
+theorem stacked_mosaic_wf (nb rows cols : Nat) : ∀ (hs : List ImageHeaderFields) (cs : List Seg), List.Forall₂ Member hs cs →
+    (∀ h ∈ hs, h.nbands = nb) → ∀ R : Nat, (∀ bx ∈ stackBoxes R hs, bx.2.1 ≤ rows ∧ bx.2.2.2 ≤ cols) →
+    (mkBlks (((stackBoxes R hs).map (fun bx => boxDef bx.1 bx.2.1 bx.2.2.1 bx.2.2.2 nb 2)).zip cs)).wfAll
+      (getShape rows cols nb 2) = true
+  | [], [], _, _, _, _ => rfl
+  | h :: rest, t :: ts, .cons hm hrest, hall, R, hbx => by
+    have hnb := hall h (by simp)
+    obtain ⟨hr, hc⟩ := hbx (R, R + h.nrows, 0, h.ncols) (by simp [stackBoxes])
+    simp only [stackBoxes, List.map_cons, List.zip_cons_cons, mkBlks, Blks.wfAll, Bool.and_eq_true]
+    refine ⟨⟨hm.wf, ?_⟩, stacked_mosaic_wf nb rows cols rest ts hrest (fun h' hh' => hall h' (by simp [hh'])) (R + h.nrows)
+      (fun bx hb => hbx bx (by simp [stackBoxes, hb]))⟩
+    rw [hm.fshape, hnb]
+    have := boxOK_boxDef rows cols R (R + h.nrows) 0 h.ncols nb 2 (by have := hm.pos.1; omega) hr hm.pos.2.1 hc (hnb ▸ hm.pos.2.2)
+    simpa using this
+
+/-- what a successful assembly of a collection of two or more members went through -/
+theorem assembleCollection_ok {h0 h1 : ImageHeaderFields} {rest : List ImageHeaderFields} {o : ReaderOptions} {t : Seg}
+    (hok : assembleCollection (h0 :: h1 :: rest) o = .ok t) :
+    optionsOK o = true ∧ (∀ h ∈ h0 :: h1 :: rest, compatible h0 h = true) ∧ cplxOK h0 = true ∧
+    ∃ children, mapM' (fun h => assembleImage h o false) (h0 :: h1 :: rest) = .ok children ∧
+      t = wrap (orientLast h0.cplx h0.nbands o true)
+        (.blocks (if h0.nbands = 1 then [listMax ((limits (h0 :: h1 :: rest)).map (·.2.1)), listMax ((limits (h0 :: h1 :: rest)).map (·.2.2.2))]
+                  else [listMax ((limits (h0 :: h1 :: rest)).map (·.2.1)), listMax ((limits (h0 :: h1 :: rest)).map (·.2.2.2)), h0.nbands])
+          (mkBlks (((limits (h0 :: h1 :: rest)).map (fun b => boxDef b.1 b.2.1 b.2.2.1 b.2.2.2 h0.nbands 2)).zip children))) := by
+  unfold assembleCollection at hok
+  split at hok
+  · cases hok
+  rename_i ho
+  simp only [] at hok
+  split at hok
+  · cases hok
+  rename_i hcompat
+  split at hok
+  · cases hok
+  rename_i hc
+  split at hok
+  · cases hok
+  rename_i children hch
+  simp only [Except.ok.injEq] at hok
+  refine ⟨by simpa using ho, ?_, by simpa using hc, children, hch, hok.symm⟩
+  have : (h0 :: h1 :: rest).all (compatible h0) = true := by simpa using hcompat
+  exact List.all_eq_true.1 this
+
+theorem compatible_iff {h0 h : ImageHeaderFields} (hc : compatible h0 h = true) : h.nbands = h0.nbands ∧ h.cplx = h0.cplx := by
+  simp only [compatible, Bool.and_eq_true, beq_iff_eq] at hc
+  exact ⟨hc.1.1.symm, hc.2.symm⟩
+
+theorem members_of (o : ReaderOptions) : ∀ (hs : List ImageHeaderFields) (cs : List Seg),
+    List.Forall₂ (fun h t => assembleImage h o false = .ok t) hs cs → (∀ h ∈ hs, cplxOK h = true) → List.Forall₂ Member hs cs
+  | [], [], _, _ => .nil
+  | h :: rest, t :: ts, .cons hy hrest, hc =>
+    .cons (member_of_assembled (hc h (by simp)) hy) (members_of o rest ts hrest (fun h' hh' => hc h' (by simp [hh'])))
+
+theorem rawShape_last (rows cols nb : Nat) : (if nb = 1 then [rows, cols] else [rows, cols, nb]) = getShape rows cols nb 2 := by
+  unfold getShape; by_cases h : nb = 1 <;> simp [h]
+
+/-- everything the three theorems need about an assembled row-stacked collection -/
+theorem collection_assembled {h0 h1 : ImageHeaderFields} {rest : List ImageHeaderFields} {o : ReaderOptions} {t : Seg}
+    (hst : Stacked (h0 :: h1 :: rest)) (hok : assembleCollection (h0 :: h1 :: rest) o = .ok t) :
+    optionsOK o = true ∧ (∀ iq, h0.cplx = some iq → h0.nbands = 2) ∧
+    ∃ X, t = wrap (orientLast h0.cplx h0.nbands o true) X ∧ X.wf = true ∧
+      X.fshape = getShape (totalRows (h0 :: h1 :: rest)) (totalCols (h0 :: h1 :: rest)) h0.nbands 2 ∧
+      ((∀ h ∈ h0 :: h1 :: rest, Valid h) →
+        RawSpec X (totalRows (h0 :: h1 :: rest)) (totalCols (h0 :: h1 :: rest)) h0.nbands 2 (stackedSrc (h0 :: h1 :: rest))) := by
+  obtain ⟨ho, hcompat, hc, children, hch, rfl⟩ := assembleCollection_ok hok
+  have hnb : ∀ h ∈ h0 :: h1 :: rest, h.nbands = h0.nbands := fun h hh => (compatible_iff (hcompat h hh)).1
+  have hcplx : ∀ h ∈ h0 :: h1 :: rest, cplxOK h = true := by
+    intro h hh
+    obtain ⟨e1, e2⟩ := compatible_iff (hcompat h hh)
+    unfold cplxOK at hc ⊢
+    rw [e1, e2]; exact hc
+  have hmem : List.Forall₂ Member (h0 :: h1 :: rest) children := members_of o _ _ (mapM'_forall₂ _ _ _ hch) hcplx
+  have hrows : listMax ((limits (h0 :: h1 :: rest)).map (·.2.1)) = totalRows (h0 :: h1 :: rest) := by
+    rw [limits_stacked _ hst]
+    show ((stackBoxes (0 + h0.nrows) (h1 :: rest)).map (·.2.1)).foldl max (0 + h0.nrows) = _
+    rw [stack_rows]; simp [totalRows]
+  have hcols : listMax ((limits (h0 :: h1 :: rest)).map (·.2.2.2)) = totalCols (h0 :: h1 :: rest) := by
+    rw [limits_stacked _ hst, stack_cols]; rfl
+  rw [hrows, hcols, rawShape_last, limits_stacked _ hst]
+  refine ⟨ho, fun iq hq => cplxOK_two hc iq hq, _, rfl, ?_, rfl, ?_⟩
+  · show (mkBlks _).wfAll _ = true
+    apply stacked_mosaic_wf h0.nbands _ _ _ _ hmem hnb 0
+    intro bx hbx
+    constructor
+    · rw [← hrows, limits_stacked _ hst]
+      exact le_listMax (List.mem_map.2 ⟨bx, hbx, rfl⟩)
+    · rw [← hcols, limits_stacked _ hst]
+      exact le_listMax (List.mem_map.2 ⟨bx, hbx, rfl⟩)
+  · intro hv pt hy0 _ hx0 _ b hb
+    obtain ⟨a0, a1, a2⟩ := ax_last h0.nbands
+    rw [a0] at hy0
+    rw [a1] at hx0
+    rw [a2] at hb
+    rw [a0, a1]
+    show ((mkBlks _).fullOnto Src.leaf Src.fill (Arr.const _ Src.fill)).get pt = _
+    rw [stacked_get h0.nbands _ _ hmem (fun h hh => ⟨hnb h hh, hv h hh⟩) 0 _ pt hy0 hx0 b hb]
+    rw [if_pos (Nat.zero_le _), Nat.sub_zero]
+    unfold stackedSrc
+    cases locate (h0 :: h1 :: rest) (pt 0).toNat with
+    | none => rfl
+    | some p => rfl
+
+/-- **a row-stacked collection assembles into a well-formed tree** (so `read_refines` applies to multi-segment images as well) -/
+theorem assembleCollection_wf {h0 h1 : ImageHeaderFields} {rest : List ImageHeaderFields} {o : ReaderOptions} {t : Seg}
+    (hst : Stacked (h0 :: h1 :: rest)) (hok : assembleCollection (h0 :: h1 :: rest) o = .ok t) : t.wf = true := by
+  obtain ⟨ho, hc, X, rfl, hX, hXs, _⟩ := collection_assembled hst hok
+  exact wrap_wf X _ _ _ 2 o _ (orientLast_ok _ _ _ _ o ho) hX hXs (fun iq hq => hc iq (by rw [orientLast_fmt] at hq; exact hq))
+
+/-- **advertised shape of the product image**: (sum of the members' rows) x (widest member) [x bands] after the orientation options -/
+theorem assembleCollection_shape {h0 h1 : ImageHeaderFields} {rest : List ImageHeaderFields} {o : ReaderOptions} {t : Seg}
+    (hst : Stacked (h0 :: h1 :: rest)) (hok : assembleCollection (h0 :: h1 :: rest) o = .ok t) :
+    t.fshape = formattedShape (totalRows (h0 :: h1 :: rest)) (totalCols (h0 :: h1 :: rest)) h0 o := by
+  obtain ⟨ho, hc, X, rfl, hX, hXs, _⟩ := collection_assembled hst hok
+  rw [wrap_fshape X _ _ _ 2 o _ (orientLast_ok _ _ _ _ o ho) hXs (fun iq hq => hc iq (by rw [orientLast_fmt] at hq; exact hq)),
+    formattedShape_eq, orientLast_fmt]
+  cases h0.cplx <;> rfl
+
+/-- **specification of the product image**: formatted index (r, c, b) shows the stored sample of the member that holds the image row
+    the documented reverse / transpose of (r, c) names - `pixelSrc` of that member at the row inside it -, the complex pair for I/Q
+    bands -/
+theorem assembleCollection_spec {h0 h1 : ImageHeaderFields} {rest : List ImageHeaderFields} {o : ReaderOptions} {t : Seg}
+    (hst : Stacked (h0 :: h1 :: rest)) (hv : ∀ h ∈ h0 :: h1 :: rest, Valid h)
+    (hok : assembleCollection (h0 :: h1 :: rest) o = .ok t) (idx : Idx) (hin : InR t.fshape idx) :
+    t.fullSrc.get idx =
+      collectionSrc (h0 :: h1 :: rest) o (totalRows (h0 :: h1 :: rest)) (totalCols (h0 :: h1 :: rest))
+        (idx 0).toNat (idx 1).toNat (idx 2).toNat := by
+  have hsh := assembleCollection_shape hst hok
+  obtain ⟨ho, hc, X, rfl, hX, hXs, hraw⟩ := collection_assembled hst hok
+  have hcc : ∀ iq, (orientLast h0.cplx h0.nbands o true).1 = some iq → h0.nbands = 2 :=
+    fun iq hq => hc iq (by rw [orientLast_fmt] at hq; exact hq)
+  rw [hsh, formattedShape_eq] at hin
+  have hin' : ∃ tail, InR (rcShape (totalRows (h0 :: h1 :: rest)) (totalCols (h0 :: h1 :: rest)) o ++ tail) idx ∧
+      (h0.cplx = none → h0.nbands ≠ 1 → tail = [h0.nbands]) := by
+    cases hq : h0.cplx with
+    | none => simp only [hq] at hin; exact ⟨_, hin, fun _ h1 => by simp [h1]⟩
+    | some iq => simp only [hq] at hin; exact ⟨[], by simpa using hin, fun hn => by cases hn⟩
+  obtain ⟨tail, hint, htail⟩ := hin'
+  obtain ⟨hr0, hr1, hr2⟩ := InR_rc _ _ o tail idx hint
+  rw [wrap_spec X _ _ _ 2 o _ (stackedSrc (h0 :: h1 :: rest)) (orientLast_ok _ _ _ _ o ho) hX hXs hcc (hraw hv) idx
+    hr0.1 hr0.2 hr1.1 hr1.2 (fun hn h1 => hr2 _ (htail (by rw [orientLast_fmt] at hn; exact hn) h1))]
+  unfold collectionSrc
+  rw [orientLast_fmt]
+  show _ = match h0.cplx with | none => _ | some true => _ | some false => _
+  cases hq : h0.cplx with
+  | none => rfl
+  | some iq => cases iq <;> rfl
+
+/-! satisfiable: two members (one blocked with pad pixels, one single block), two bands, stacked by rows -/
+def exM0 : ImageHeaderFields :=
+  { nrows := 3, ncols := 4, nbands := 2, imode := .P, nbpr := 2, nbpc := 2, nppbh := 2, nppbv := 2, bps := 1, cplx := none,
+    mask := none, offset := 500, size := 4 * 8, ilocRow := 0, ilocCol := 0 }
+def exM1 : ImageHeaderFields :=
+  { nrows := 2, ncols := 4, nbands := 2, imode := .B, nbpr := 1, nbpc := 1, nppbh := 0, nppbv := 0, bps := 1, cplx := none,
+    mask := none, offset := 900, size := 16, ilocRow := 3, ilocCol := 0 }
+
+example : Stacked [exM0, exM1] := by simp [Stacked, Stacked', exM0, exM1]
+example : ∃ t, assembleCollection [exM0, exM1] exO = .ok t ∧ t.fshape = [4, 5, 2] := ⟨_, rfl, by decide⟩
+-- formatted (c, r, b) = (1, 0, 1) with rows reversed and axes transposed: image row 5 - 1 - 0 = 4, i.e. row 1 of the second member
+example : collectionSrc [exM0, exM1] exO 5 4 1 0 1 = Src.leaf 900 [1, 1, 1] := by decide
+
 end Sarpy.Props.C01.Nitf
